@@ -396,6 +396,38 @@ def replay_one(ctx, path, verbose=False):
     return len(rep.get("violations", [])) > 0
 
 
+def replay_run(ctx, path, verbose=False, module="SumdbMonitor", cfg="SumdbMonitor", attempts=1, race=False):
+    """Replay of a finding of the TLA+ monitor on a recorded run: the run is executed again with its events written
+    out, and the monitor judges them again (the Go-side observers run as well).  Concurrent runs are not
+    deterministic: several attempts."""
+    v = json.load(open(path))
+    case = v.get("case") or {}
+    if case.get("k") != "run":
+        return replay_one(ctx, path, verbose)
+    clause_sig = v.get("sig", "")
+    for a in range(attempts):
+        trace = os.path.join(ctx.work, "replay-run-%d.ndjson" % a)
+        if os.path.exists(trace):
+            os.remove(trace)
+        rep = ctx.vh(["one", path], env_extra={"VERIF_RUN_TRACE": trace}, race=race)
+        if rep.get("violations"):
+            if verbose:
+                for x in rep["violations"]:
+                    log("  reproduced: %s: %s" % (x.get("sig"), x.get("what")))
+            return True
+        if not os.path.exists(trace) or os.path.getsize(trace) == 0:
+            continue
+        r = ctx.tlc(module, cfg, workers=1, files={"trace.ndjson": trace}, name="%s:replay%d" % (cfg, a), timeout=600, xss="256m")
+        done = [o for o in read_tlc_json(r.outfile) if o.get("k") == "done"]
+        for (l, clause) in (done[-1]["in"].get("bad", []) if done else []):
+            sig = "monitor:" + re.sub(r"[^a-z0-9]+", "-", clause.lower())[:60]
+            if verbose:
+                log("  reproduced by the monitor: %s" % clause)
+            if sig == clause_sig or not clause_sig.startswith("monitor:"):
+                return True
+    return False
+
+
 def gen_and_replay(ctx, world, module, cfg, floor=1, name=None, vh_args=(), **kw):
     """E2: TLC generates cases (printed JSON), the harness replays them into the real code."""
     r = ctx.tlc(module, cfg, name=name or cfg, **kw)
